@@ -251,6 +251,11 @@ func TestLbvcBoundedSnapshot(t *testing.T) {
 		{"shrink isr: d leaves", isrOp(false, "d")},
 		{"expand isr: d joins", isrOp(true, "d")},
 		{"join g/cons5 [bar]", join("g", "cons5", "bar")},
+		// a member whose only stream is deleted stays a member (without streams) and has to come back from a snapshot
+		{"create solo", func() error { return c.CreateStream(ctx, "solo", "solo") }},
+		{"join k/y [solo]", join("k", "y", "solo")},
+		{"join k/z [solo bar]", join("k", "z", "solo", "bar")},
+		{"delete solo (k/y is left without streams)", func() error { return c.DeleteStream(ctx, "solo") }},
 		{"leave g/cons2", leave("g", "cons2")},
 	}
 	evaluations := 0
